@@ -95,6 +95,55 @@ func runC15(c *Ctx) {
 	// R2, R3, R4(generate) ------------------------------------------------------------
 	fileSinks := map[string]bool{"os.WriteFile": true, "os.Create": true, "os.Remove": true, "os.RemoveAll": true, "os.Rename": true, "os.OpenFile": true}
 	nsink := 0
+	// package-local helpers that hand one of their string parameters to a file sink (or to a writer function value):
+	// a call of such a helper is itself a sink for that argument
+	isWriterValue := func(call *ast.CallExpr) bool {
+		if se, ok := call.Fun.(*ast.SelectorExpr); ok && isFileWriterField(info, se) {
+			return true
+		}
+		if id, ok := call.Fun.(*ast.Ident); ok {
+			if v, isVar := info.ObjectOf(id).(*types.Var); isVar {
+				if sig, ok := v.Type().Underlying().(*types.Signature); ok && sig.Params().Len() == 2 && sig.Results().Len() == 1 &&
+					isStringType(sig.Params().At(0).Type()) && sig.Params().At(1).Type().String() == "[]byte" && sig.Results().At(0).Type().String() == "error" {
+					return true
+				}
+			}
+		}
+		return false
+	}
+	sinkHelpers := map[types.Object]int{}
+	for _, fd := range allFuncDecls(p) {
+		if fd.Body == nil {
+			continue
+		}
+		var prms []types.Object
+		for _, prm := range fd.Type.Params.List {
+			for _, nm := range prm.Names {
+				prms = append(prms, info.Defs[nm])
+			}
+		}
+		ast.Inspect(fd.Body, func(n ast.Node) bool {
+			call, ok := n.(*ast.CallExpr)
+			if !ok || len(call.Args) == 0 {
+				return true
+			}
+			name := ""
+			if fn := calleeOf(info, call); fn != nil {
+				name = fullName(fn)
+			}
+			if !fileSinks[name] && !isWriterValue(call) {
+				return true
+			}
+			if id, ok := ast.Unparen(call.Args[0]).(*ast.Ident); ok {
+				for i, po := range prms {
+					if po == info.ObjectOf(id) && isStringType(po.Type()) {
+						sinkHelpers[info.Defs[fd.Name]] = i
+					}
+				}
+			}
+			return true
+		})
+	}
 	for _, fd := range allFuncDecls(p) {
 		if fd.Recv == nil || recvTypeName(fd.Recv.List[0].Type) != "FSEventHandler" {
 			if fd.Name.Name != "generateSourceMapVisualisation" {
@@ -121,20 +170,26 @@ func runC15(c *Ctx) {
 				name = fullName(fn)
 			}
 			isWriter := false
-			if se, ok := call.Fun.(*ast.SelectorExpr); ok && se.Sel.Name == "writer" {
-				if _, isField := info.Selections[se]; isField {
+			if isWriterValue(call) {
+				isWriter = true
+				name = "h.writer"
+			}
+			pathArg := call.Args[0]
+			if fn := calleeOf(info, call); fn != nil {
+				if i, isHelper := sinkHelpers[fn]; isHelper && i < len(call.Args) && types.Object(fn) != info.Defs[fd.Name] {
 					isWriter = true
-					name = "h.writer"
+					name = fn.Name()
+					pathArg = call.Args[i]
 				}
 			}
 			if !fileSinks[name] && !isWriter {
 				return true
 			}
 			nsink++
-			key := fmt.Sprintf("%s|%s(%s)", funcKey(p, fd), name, types.ExprString(call.Args[0]))
-			ok2, how := derivedFromRoot(call.Args[0])
+			key := fmt.Sprintf("%s|%s(%s)", funcKey(p, fd), name, types.ExprString(pathArg))
+			ok2, how := derivedFromRoot(pathArg)
 			c.check(ok2, "C15.R2", key, c.pos(call.Pos()), "path derives from the event's own file: "+how,
-				fmt.Sprintf("%s: the path %s given to %s does not derive from the handled file's own name through TrimSuffix+suffix or the text-file name function (%s): another file could be written or removed", fd.Name.Name, types.ExprString(call.Args[0]), name, how))
+				fmt.Sprintf("%s: the path %s given to %s does not derive from the handled file's own name through TrimSuffix+suffix or the text-file name function (%s): another file could be written or removed", fd.Name.Name, types.ExprString(pathArg), name, how))
 			return true
 		})
 	}
@@ -176,12 +231,67 @@ func runC15(c *Ctx) {
 						}
 					}
 				}
-				if se, ok := call.Fun.(*ast.SelectorExpr); ok && se.Sel.Name == "writer" {
+				if se, ok := call.Fun.(*ast.SelectorExpr); ok && isFileWriterField(info, se) {
 					writerCall = call
 				}
 			}
 			return true
 		})
+		// the hash-then-write step may live in a package-local helper that receives the bytes as a parameter and both
+		// hashes and writes that parameter
+		helperContentIdx := -1
+		if writerCall == nil || hashCall == nil {
+			ast.Inspect(gen.Body, func(n ast.Node) bool {
+				call, ok := n.(*ast.CallExpr)
+				if !ok || helperContentIdx >= 0 {
+					return true
+				}
+				fn := calleeOf(info, call)
+				if fn == nil || fn.Pkg() != p.Types {
+					return true
+				}
+				for _, hfd := range allFuncDecls(p) {
+					if info.Defs[hfd.Name] != types.Object(fn) || hfd.Body == nil {
+						continue
+					}
+					var prms []types.Object
+					for _, prm := range hfd.Type.Params.List {
+						for _, nm := range prm.Names {
+							prms = append(prms, info.Defs[nm])
+						}
+					}
+					hashed, written := -1, -1
+					ast.Inspect(hfd.Body, func(m ast.Node) bool {
+						hc, ok := m.(*ast.CallExpr)
+						if !ok {
+							return true
+						}
+						argIdx := func(e ast.Expr) int {
+							if id, ok := ast.Unparen(e).(*ast.Ident); ok {
+								for i, po := range prms {
+									if po == info.ObjectOf(id) {
+										return i
+									}
+								}
+							}
+							return -1
+						}
+						if hf := calleeOf(info, hc); hf != nil && fullName(hf) == "crypto/sha256.Sum256" && len(hc.Args) == 1 {
+							hashed = argIdx(hc.Args[0])
+						}
+						if isWriterValue(hc) && len(hc.Args) == 2 {
+							written = argIdx(hc.Args[1])
+						}
+						return true
+					})
+					if hashed >= 0 && hashed == written && hashed < len(call.Args) {
+						helperContentIdx = hashed
+						writerCall, hashCall = call, call
+					}
+				}
+				return true
+			})
+		}
 		if fmtCall == nil || genCall == nil || writerCall == nil || hashCall == nil {
 			c.viol("C15.R3", key+"|pipeline", c.pos(gen.Pos()), fmt.Sprintf("generate/format/hash/write pipeline incomplete (Generate %v, format.Source %v, Sum256 %v, writer %v)", genCall != nil, fmtCall != nil, hashCall != nil, writerCall != nil))
 		} else {
@@ -195,33 +305,25 @@ func runC15(c *Ctx) {
 			c.check(bufSame, "C15.R3", key+"|formats-generator-output", c.pos(fmtCall.Pos()), "format.Source is applied to the buffer the generator wrote",
 				"format.Source is not applied to the bytes the generator produced")
 			wArg, hArg := false, false
-			if len(writerCall.Args) == 2 {
-				if id, ok := writerCall.Args[1].(*ast.Ident); ok && formatted != nil && info.ObjectOf(id) == formatted {
-					wArg = true
+			if helperContentIdx >= 0 {
+				if id, ok := writerCall.Args[helperContentIdx].(*ast.Ident); ok && formatted != nil && info.ObjectOf(id) == formatted {
+					wArg, hArg = true, true
 				}
-			}
-			if id, ok := hashCall.Args[0].(*ast.Ident); ok && formatted != nil && info.ObjectOf(id) == formatted {
-				hArg = true
+			} else {
+				if len(writerCall.Args) == 2 {
+					if id, ok := writerCall.Args[1].(*ast.Ident); ok && formatted != nil && info.ObjectOf(id) == formatted {
+						wArg = true
+					}
+				}
+				if id, ok := hashCall.Args[0].(*ast.Ident); ok && formatted != nil && info.ObjectOf(id) == formatted {
+					hArg = true
+				}
 			}
 			c.check(wArg, "C15.R3", key+"|writes-formatted-bytes", c.pos(writerCall.Pos()), "the file writer receives the gofmt-formatted bytes",
 				"the bytes handed to the file writer are not the result of format.Source: the written file differs from the gofmt-formatted generation")
 			c.check(hArg, "C15.R3", key+"|hashes-what-it-writes", c.pos(hashCall.Pos()), "the change-detection hash is computed over the bytes that are written",
 				"the hash that gates the write is not computed over the bytes that are written")
-			// write inside `if h.UpsertHash(target, hash)`
-			gated := false
-			hashObj := assignedObject(info, gen.Body, hashCall)
-			ast.Inspect(gen.Body, func(n ast.Node) bool {
-				if is, ok := n.(*ast.IfStmt); ok && is.Body.Pos() <= writerCall.Pos() && writerCall.End() <= is.Body.End() {
-					if call, ok := is.Cond.(*ast.CallExpr); ok && len(call.Args) == 2 {
-						if id, ok := call.Args[1].(*ast.Ident); ok && info.ObjectOf(id) == hashObj && types.ExprString(call.Args[0]) == types.ExprString(writerCall.Args[0]) {
-							gated = true
-						}
-					}
-				}
-				return true
-			})
-			c.check(gated, "C15.R3", key+"|write-gated-by-own-hash", c.pos(writerCall.Pos()), "the write is gated by the hash of this target under this target's key",
-				"the write of the target file is not gated by UpsertHash(<that target>, <hash of its bytes>)")
+			writesGatedByOwnHash(c, "C15.R3", "write-gated-by-own-hash")
 		}
 		// R4 in generate: errors of the deciding calls reach a return
 		deciding := map[string]bool{pkgParser + ".Parse": true, pkgGenerator + ".Generate": true, "go/format.Source": true, "os.WriteFile": true}
@@ -319,31 +421,58 @@ func runC15(c *Ctx) {
 		ast.Inspect(run.Body, func(n ast.Node) bool {
 			if rs, ok := n.(*ast.RangeStmt); ok {
 				if id, ok := rs.X.(*ast.Ident); ok && errChan != nil && info.ObjectOf(id) == errChan {
-					// last statement: <counter>.Add(1), not inside a condition
-					if len(rs.Body.List) > 0 {
-						if es, ok := rs.Body.List[len(rs.Body.List)-1].(*ast.ExprStmt); ok {
-							if call, ok := es.X.(*ast.CallExpr); ok {
-								if se, ok := call.Fun.(*ast.SelectorExpr); ok && se.Sel.Name == "Add" {
-									counted = true
-									counter = types.ExprString(se.X)
+					// over the paths of one iteration: a path that does not count the error either found it nil or
+					// returns it (a fatal error ends the run)
+					ld := &denum{info: info, pkg: p.Types, inits: map[types.Object]ast.Expr{}, limit: 5000, loopBody: true, opaqueLoops: true}
+					ld.finish(ld.run(rs.Body.List, []dstate{{env: map[types.Object]ast.Expr{}}}))
+					var errVar types.Object
+					if vid, ok := rs.Key.(*ast.Ident); ok {
+						errVar = info.ObjectOf(vid) // `for err := range errs`: the value of a channel range is its Key
+					}
+					if ld.undecided == "" && errVar != nil {
+						counted = true
+						ncount := 0
+						for _, pth := range ld.paths {
+							adds := false
+							for _, st := range pth.Trace {
+								ast.Inspect(st, func(m ast.Node) bool {
+									if call, ok := m.(*ast.CallExpr); ok {
+										if se, ok := call.Fun.(*ast.SelectorExpr); ok && se.Sel.Name == "Add" && len(call.Args) == 1 {
+											if t := info.TypeOf(se.X); t != nil && strings.Contains(t.String(), "atomic.") {
+												adds = true
+												counter = types.ExprString(se.X)
+											}
+										}
+									}
+									return true
+								})
+							}
+							if adds {
+								ncount++
+								continue
+							}
+							isNil := false
+							for _, pc := range pth.Conds {
+								if be, ok := ast.Unparen(pc.Expr).(*ast.BinaryExpr); ok && types.ExprString(be.Y) == "nil" {
+									if id, ok := ast.Unparen(be.X).(*ast.Ident); ok && info.ObjectOf(id) == errVar {
+										if pc.Val == (be.Op == token.EQL) {
+											isNil = true
+										}
+									}
 								}
+							}
+							returnsIt := false
+							if pth.Ret != nil && len(pth.Ret.Results) == 1 {
+								if id, ok := ast.Unparen(pth.Ret.Results[0]).(*ast.Ident); ok && info.ObjectOf(id) == errVar {
+									returnsIt = true
+								}
+							}
+							if !isNil && !returnsIt {
+								counted = false
 							}
 						}
-					}
-					// the only ways to skip the count: nil error, fatal error (returned)
-					for _, st := range rs.Body.List[:len(rs.Body.List)-1] {
-						if is, ok := st.(*ast.IfStmt); ok {
-							last := is.Body.List[len(is.Body.List)-1]
-							switch l := last.(type) {
-							case *ast.BranchStmt:
-								if types.ExprString(is.Cond) != "err == nil" {
-									counted = false
-								}
-							case *ast.ReturnStmt:
-								if len(l.Results) != 1 || types.ExprString(l.Results[0]) != "err" {
-									counted = false
-								}
-							}
+						if ncount == 0 {
+							counted = false
 						}
 					}
 				}
@@ -698,7 +827,7 @@ func checkErrFlow(c *Ctx, info *types.Info, fd *ast.FuncDecl, st ast.Stmt, list 
 	if fn := calleeOf(info, call); fn != nil {
 		name = fullName(fn)
 	}
-	if se, ok := call.Fun.(*ast.SelectorExpr); ok && se.Sel.Name == "writer" {
+	if se, ok := call.Fun.(*ast.SelectorExpr); ok && isFileWriterField(info, se) {
 		name = "h.writer"
 	}
 	if !deciding[name] && name != "h.writer" {
@@ -1226,4 +1355,18 @@ func perFileErrorsAreNotFatal(c *Ctx, rule string) {
 		})
 	}
 	c.control(rule+":fatal-errors-stop-the-run", stops)
+}
+
+// isFileWriterField: a struct field of function type func(name string, contents []byte) error — the handler's
+// injectable file writer, whatever it is called.
+func isFileWriterField(info *types.Info, se *ast.SelectorExpr) bool {
+	sel, ok := info.Selections[se]
+	if !ok || sel.Kind() != types.FieldVal {
+		return false
+	}
+	sig, ok := sel.Type().Underlying().(*types.Signature)
+	if !ok || sig.Params().Len() != 2 || sig.Results().Len() != 1 {
+		return false
+	}
+	return isStringType(sig.Params().At(0).Type()) && sig.Params().At(1).Type().String() == "[]byte" && sig.Results().At(0).Type().String() == "error"
 }
